@@ -320,6 +320,11 @@ func c11All(env *core.Env, c0 *rulesCase) core.Verdict {
 	if err := c.tree().Write(root); err != nil {
 		return core.Incon("cannot write tree: %v", err)
 	}
+	if len(c.Sources)%2 == 1 {
+		// editor and desktop droppings in the assembly directory sort in front of every assembly file; they are no
+		// reason to end the walk
+		_ = (sut.Tree{"regex-assembly/.932100.ra.swp": "b0VIM", "regex-assembly/.gitignore": "*.bak\n", "regex-assembly/.DS_Store": "\x00\x01", "regex-assembly/include/.keep": ""}).Write(root)
+	}
 	v := core.Verdict{Status: core.Held, Features: []string{"lane:" + c.Lane}, Counts: map[string]int{}}
 	if c.Lane == "all-stash" {
 		// the file walked last appends a stored name that only the file walked first stores: on its own it is
